@@ -86,3 +86,12 @@ func init() {
 			Old: "func (cache *MemCache) Update(size uint64) {\n", New: "func (cache *MemCache) Update(size uint64) {\n\tif uint64(cache.size) == size {\n\t\treturn\n\t}\n"},
 	)
 }
+
+func init() {
+	variants["C07"] = append(variants["C07"],
+		variant{Name: "pre-plot pass maps the boundary value y == half to the upper branch's slot", Kill: true, Rule: "C07-SIBLING", File: fPlot,
+			Old: "\t\t\tif y < half {\n\t\t\t\ty = y * 2\n", New: "\t\t\tif y <= half {\n\t\t\t\ty = y * 2\n"},
+		variant{Name: "slot mapping written with the branches exchanged", Kill: false, File: fPlot,
+			Old: "\t\t\tif y < half {\n\t\t\t\ty = y * 2\n\t\t\t} else {\n\t\t\t\ty = pocutil.FlipValue(y, bl)*2 + 1\n\t\t\t}", New: "\t\t\tif !(y < half) {\n\t\t\t\ty = pocutil.FlipValue(y, bl)*2 + 1\n\t\t\t} else {\n\t\t\t\ty = y * 2\n\t\t\t}"},
+	)
+}
